@@ -796,7 +796,7 @@ pub fn c07_compose() {
 pub fn bnd_c07() {
     let starts: Vec<i64> = if thorough() { vec![1, 0, -1, -3, 7, 8, 9, 95, 98, 99, 100, 998, -10, -11] } else { vec![1, 0, -1, 8, 9, 98, 99, -10] };
     let mut rep = Report::new("bnd_c07", &format!("ordered lists with start in {:?}, 1..=12 items (one item with text that wraps, one with a nested ordered or unordered list), widths 8..=30 step 1; plain decorator: \
-        item k carries the number start+k-1, all markers of a list are padded to one common width (the widest of first and last), continuation lines and nested lists are indented by that width, lines within the width", starts));
+        item k carries the number start+k-1, all markers of a list are padded to one common width (the widest marker), continuation lines and nested lists are indented by that width, lines within the width", starts));
     for &st in &starts { for n in 1..=12usize { for nested in [0, 1, 2] {
         let mut html = if st == 1 { String::from("<ol>") } else { format!("<ol start=\"{}\">", st) };
         for k in 0..n {
